@@ -49,15 +49,19 @@ impl Secp256R1Verifier {
 
     // Concatenate x and y coordinates as required by
     // EncodedPoint::from_untagged_bytes.
-    let public_key_bytes = jwu::decode_b64(&params.x)
-      .map_err(|err| {
-        SignatureVerificationError::new(SignatureVerificationErrorKind::KeyDecodingFailure).with_source(err)
-      })?
-      .into_iter()
-      .chain(jwu::decode_b64(&params.y).map_err(|err| {
-        SignatureVerificationError::new(SignatureVerificationErrorKind::KeyDecodingFailure).with_source(err)
-      })?)
-      .collect();
+    let x: Vec<u8> = jwu::decode_b64(&params.x).map_err(|err| {
+      SignatureVerificationError::new(SignatureVerificationErrorKind::KeyDecodingFailure).with_source(err)
+    })?;
+    let y: Vec<u8> = jwu::decode_b64(&params.y).map_err(|err| {
+      SignatureVerificationError::new(SignatureVerificationErrorKind::KeyDecodingFailure).with_source(err)
+    })?;
+    // Each coordinate is exactly 32 bytes; collecting anything else into the fixed-size array would panic or truncate.
+    if x.len() != 32 || y.len() != 32 {
+      return Err(SignatureVerificationError::new(
+        SignatureVerificationErrorKind::KeyDecodingFailure,
+      ));
+    }
+    let public_key_bytes = x.into_iter().chain(y).collect();
 
     // The JWK contains the uncompressed x and y coordinates, so we can create the
     // encoded point directly without prefixing an SEC1 tag.
